@@ -100,7 +100,7 @@ theorem yields_replicate (m : Nat) : yields (List.replicate m (Obs.item 0)) = Li
   | succ m ih => simp [List.replicate_succ, yields, ih]
 
 /-- The restored iterator counts its yields from `m`, and its `snapshot_step` is `stepOf`. -/
-theorem restored_gs (c : Cfg) (hio : c.inOrder = true) (m : Nat) (hm : SnapStep c m) (sn : Snap) (hsn : sn.step = m)
+theorem restored_gs (c : Cfg) (hit : c.iterable = true) (hio : c.inOrder = true) (m : Nat) (hm : SnapStep c m) (sn : Snap) (hsn : sn.step = m)
     (as : List Action) (s' : State) (hnr : NoReset as) (hr : run c (restore c sn) as = some s') :
     s'.numYielded = m + (yields s'.obs).length ∧ s'.snap.step = stepOf c s'.numYielded ∧ m ≤ s'.snap.step := by
   have hc := prime_sameCore c (c.P * c.W) (restoreBase c sn)
@@ -116,7 +116,7 @@ theorem restored_gs (c : Cfg) (hio : c.inOrder = true) (m : Nat) (hm : SnapStep 
       rw [hc.snap]
       simp only [restoreBase]
       rw [hsn]; exact hm.1 h0
-    · intro h0
+    · intro h0 _
       show c.interval ∣ (restore c sn).snap.step ∧ (restore c sn).snap.step ≤ (restore c sn).numYielded ∧
         (restore c sn).numYielded < (restore c sn).snap.step + c.interval
       unfold restore
@@ -140,7 +140,7 @@ theorem restored_gs (c : Cfg) (hio : c.inOrder = true) (m : Nat) (hm : SnapStep 
     · have := hg.st0 h0
       rw [hsnap] at this
       simp [h0, this]
-    · obtain ⟨⟨k, hk⟩, h2, h3⟩ := hg.st h0
+    · obtain ⟨⟨k, hk⟩, h2, h3⟩ := hg.st h0 hit
       rw [hsnap] at hk h2 h3
       rw [hnyl] at h2 h3
       simp only [h0, if_false]
@@ -150,7 +150,7 @@ theorem restored_gs (c : Cfg) (hio : c.inOrder = true) (m : Nat) (hm : SnapStep 
       exact (Nat.div_eq_of_lt_le (by rw [Nat.mul_comm]; exact h2) (by rw [Nat.mul_comm, Nat.mul_succ]; exact h3)).symm
   · by_cases h0 : c.interval = 0
     · have := hm.1 h0; omega
-    · obtain ⟨⟨k, hk⟩, h2, h3⟩ := hg.st h0
+    · obtain ⟨⟨k, hk⟩, h2, h3⟩ := hg.st h0 hit
       rw [hsnap] at hk h2 h3
       rw [hnyl] at h2 h3
       obtain ⟨q, hq⟩ := hm.2 h0
@@ -387,7 +387,7 @@ theorem restored_all (c : Cfg) (hv : c.ValidI) (hit : c.iterable = true) (hio : 
   obtain ⟨K, lw, p1, p2, p3, p4⟩ := exists_ptr c hv.1.1 m hmle
   have hp : Ptr c m K lw := ⟨p1, p2, p3, p4⟩
   have hJ := restored_J c hv hit hio hok m K lw hp sn hsn as s' hnr hr hd
-  obtain ⟨g1, g2, g3⟩ := restored_gs c hio m hms sn hsn.1 as s' hnr hr
+  obtain ⟨g1, g2, g3⟩ := restored_gs c hit hio m hms sn hsn.1 as s' hnr hr
   obtain ⟨y1, y2⟩ := yields_back c hv hok m K lw hp s' hJ.1 hJ.2.1
   refine ⟨y1, y2, not_assert_vs c K s' hJ.2.1, g1, ?_⟩
   obtain ⟨E, R, hE, ⟨E1, E2, hE12, hat⟩, _⟩ := hJ.2.2.1
